@@ -51,8 +51,12 @@ def generate(rng, tier):
             if rng.random() < 0.7:
                 plan["policies"][k] = rng.choice(["exclude", "preserve"])
     RL = rng.random() < 0.5     # constrained (Rule) leaf types in this plan
+
+    def maybe_opt(t_):
+        # Optional[container]: the container is parsed as a branch of a union
+        return ["opt", t_] if rng.random() < 0.25 else t_
     if kind == "rule":
-        t = tdsl.gen_container(rng, rng.choice([1, 1, 1, 2, 2, 3]), rule_leaves=RL)
+        t = maybe_opt(tdsl.gen_container(rng, rng.choice([1, 1, 1, 2, 2, 3]), rule_leaves=RL))
         plan["type"] = t
         plan["input"] = tdsl.gen_value(rng, t, pool, positions)
         if rng.random() < 0.3:
@@ -62,7 +66,7 @@ def generate(rng, tier):
         inp = {}
         plan["mode"] = rng.choice([None, None, "a", "b"])
         for i in range(rng.choice([1, 2, 2, 3, 4])):
-            t = tdsl.gen_scalar(rng, rule_leaves=RL) if rng.random() < 0.55 else tdsl.gen_container(rng, rng.choice([1, 1, 2]), rule_leaves=RL)
+            t = tdsl.gen_scalar(rng, rule_leaves=RL) if rng.random() < 0.55 else maybe_opt(tdsl.gen_container(rng, rng.choice([1, 1, 2]), rule_leaves=RL))
             required = rng.random() < 0.5
             f = {"name": "f%d" % i, "type": t, "required": required,
                  "default": None if required else rng.choice(["absent", "none", "leaf"]),
@@ -71,8 +75,10 @@ def generate(rng, tier):
                 f["required"] = "mode"     # Field(required='a'): required only when the parse runs in mode 'a'
             if f["required"] and f["on_error"] == "exclude":
                 f["on_error"] = None   # rejected at declaration time by Field()
-            if not tdsl.is_scalar(t) and rng.random() < 0.3:
+            if not tdsl.is_scalar(t) and t[0] != "opt" and rng.random() < 0.3:
                 f["max_len"] = rng.choice([1, 2, 3])
+            if not f["required"] and f["default"] in ("none", "leaf") and rng.random() < 0.2:
+                f["defer"] = True      # Field(defer_default=True): the default is not part of the parsed result
             fields.append(f)
             inp[f["name"]] = tdsl.gen_value(rng, t, pool, positions, (f["name"],))
         plan["fields"] = fields
@@ -142,6 +148,8 @@ def build(plan, strict=False):
                     kw["default"] = None
                 else:
                     kw["default_factory"] = (lambda: faults.Leaf(9999))
+            if f.get("defer"):
+                kw["defer_default"] = True
             if f["on_error"] and not strict:
                 kw["on_error"] = f["on_error"]
             if kw:
@@ -153,7 +161,13 @@ def build(plan, strict=False):
         if add is not None:
             okw["addition"] = faults.Leaf if add == "leaf" else add
         opts = _strict_options(**okw) if strict else _options(plan, **okw)
-        class_opts = opts if (plan["opts_at"] == "class" or add is not None) else None
+        if plan["opts_at"] == "class":
+            class_opts = opts
+        elif okw:
+            # the policies come with the call; the class only declares what a class parser must know (typed addition, mode)
+            class_opts = _strict_options(**okw)
+        else:
+            class_opts = None
         if class_opts is not None:
             ns["__options__"] = class_opts
         base = Schema if kind == "schema" else DataClass
@@ -194,6 +208,8 @@ def ref(t, v, pol):
     if tdsl.is_scalar(t):
         return _scalar_alone(t, v)
     k = t[0]
+    if k == "opt":
+        return None if v is None else ref(t[1], v, pol)
     if k in ("list", "set", "fset", "tup"):
         out = []
         for e in v:
@@ -238,7 +254,7 @@ def ref_plan(plan, value, pol, stats):
     kind = plan["kind"]
     if kind == "rule":
         r = ref(plan["type"], value, pol)
-        if r is not FAIL and plan.get("max_len") and len(r) > plan["max_len"]:
+        if r is not FAIL and r is not None and plan.get("max_len") and len(r) > plan["max_len"]:
             return FAIL     # the bound applies to what is left after the policies did their work
         return r
     if kind in ("schema", "dataclass"):
@@ -248,7 +264,7 @@ def ref_plan(plan, value, pol, stats):
             if name not in value:
                 continue
             r = ref(f["type"], value[name], pol)
-            if r is not FAIL and f.get("max_len") and len(r) > f["max_len"]:
+            if r is not FAIL and r is not None and f.get("max_len") and len(r) > f["max_len"]:
                 r = FAIL
             if r is FAIL:
                 p = f["on_error"] or pol["invalid_values"]
@@ -256,7 +272,7 @@ def ref_plan(plan, value, pol, stats):
                     if f["required"] is True or (f["required"] == "mode" and plan.get("mode") == "a"):
                         stats["probe:required_field_excluded"] += 1
                         return FAIL
-                    if f["default"] == "absent":
+                    if f["default"] == "absent" or f.get("defer"):
                         continue
                     r = None if f["default"] == "none" else faults.Leaf(9999)
                 elif p == "preserve":
@@ -355,6 +371,8 @@ def _innermost_kinds(plan):
                 kinds.add(holder)
             return
         k = t[0]
+        if v is None:
+            return
         if k in ("opt",):
             return walk(t[1], v, holder)
         if k in ("list", "set", "fset", "tup"):
@@ -407,7 +425,12 @@ def execute(plan):
             raise kernel.HarnessError(f"C11 control run rejected a fault-free input: {type(e).__name__}: {e} plan={kernel.jdump(plan)}")
         got0 = FAIL     # over a declared length bound even without faults: rejected, as the reference says
     if (exp0 is FAIL) != (got0 is FAIL) or (exp0 is not FAIL and _canon(got0) != _canon(exp0)):
-        raise kernel.HarnessError(f"C11 control mismatch: got {_canon(got0) if got0 is not FAIL else 'FAIL'} expected {_canon(exp0) if exp0 is not FAIL else 'FAIL'}")
+        # even without a single offending element the policies changed the result: "every non-offending element is
+        # converted exactly as under the default 'throw' policy" fails outright
+        pols0 = "/".join(sorted(set(p for p in pol.values() if p != "throw"))) or "throw"
+        res.violate(f"C11|{plan['kind']}|no-fault|{pols0}|policy_changes_fault_free_result",
+                    f"without any offending element: got {_canon(got0) if got0 is not FAIL else 'rejected'} expected {_canon(exp0) if exp0 is not FAIL else 'rejected'}")
+        return res
     res.ev("control", "ok")
 
     faults.reset()
